@@ -1173,6 +1173,11 @@ def _run_star(case):
             # W rows are rows that xycoords=<candidates> reproduces exactly
             setRC = {_key(r) for r in rowsRC}
             mrow = mech
+            if F.form.get('xy') == 'uint16':
+                # classification only: centroids displaced by 2**16 = unsigned positions minus the kernel radius
+                wrapped = bool(len(rowsRC) and np.any((rowsRC[:, 0] > nx + 6e4) | (rowsRC[:, 1] > ny + 6e4)))
+                mech = dict(mech, xycoords_unsigned=True, explained_by_unsigned_wraparound=wrapped)
+                mrow = mech
             if nW:
                 miss = [i for i in range(nW) if _key(rowsW[i]) not in setRC]
                 if miss and not float(msep).is_integer():
